@@ -429,10 +429,10 @@ impl Check for RawBytes {
                 b
             }),
         ];
-        (bytes, 0u8..8).prop_map(|(bytes, command)| BytesCase { bytes, command }).boxed()
+        (bytes, 0u8..10).prop_map(|(bytes, command)| BytesCase { bytes, command }).boxed()
     }
     fn rule(&self) -> String {
-        "random bytes, or an example file with 1-5 byte edits (often producing invalid UTF-8), given to the real binary as a file or on stdin for parse / translate / verify --equivalence strong / verify --equivalence external (without proof search, and with proof search, several prover instances and no prover on the PATH); oracle: exit status 0, 1 or 2, a message on stderr when non-zero, no signal, no panic message, within 60 s; non-trivial = every case; distinct by bytes + command".into()
+        "random bytes, or an example file with 1-5 byte edits (often producing invalid UTF-8), given to the real binary as a file or on stdin for parse / translate / verify --equivalence strong / verify --equivalence external (without proof search, and with proof search, several prover instances and no prover on the PATH, or a stand-in prover that is killed by a signal before or after its status line, prints non-UTF-8 noise or exits non-zero); oracle: exit status 0, 1 or 2, a message on stderr when non-zero, no signal, no panic message, within 60 s; non-trivial = every case; distinct by bytes + command".into()
     }
     fn run(&self, case: &BytesCase) -> Outcome {
         let Some(bin) = cli::anthem_bin() else {
@@ -458,12 +458,32 @@ impl Check for RawBytes {
             // with proof search (several prover instances, no prover on the PATH): the input against a
             // program without rules, and against itself
             6 => vec!["verify".into(), "--equivalence".into(), "strong".into(), "-n".into(), "2".into(), fs.clone(), dir.join("empty.lp").to_string_lossy().to_string()],
-            _ => vec!["verify".into(), "--equivalence".into(), "strong".into(), "-n".into(), "3".into(), "--time-limit".into(), "1".into(), fs.clone(), fs.clone()],
+            7 => vec!["verify".into(), "--equivalence".into(), "strong".into(), "-n".into(), "3".into(), "--time-limit".into(), "1".into(), fs.clone(), fs.clone()],
+            // with proof search and a prover that misbehaves (see below): one instance, and two
+            8 => vec!["verify".into(), "--equivalence".into(), "strong".into(), "--time-limit".into(), "1".into(), fs.clone(), okl.clone()],
+            _ => vec!["verify".into(), "--equivalence".into(), "external".into(), "-n".into(), "2".into(), "--time-limit".into(), "1".into(), okl.clone(), fs.clone(), oku.clone()],
         };
         std::fs::write(dir.join("empty.lp"), "% no rules\n").unwrap();
         let argv: Vec<&str> = args.iter().map(|s| s.as_str()).collect();
         let no_prover = [("PATH", "/nonexistent".to_string())];
-        let r = cli::run_env(&bin, &argv, None, if case.command >= 6 { &no_prover } else { &[] }, Duration::from_secs(60));
+        // commands 8 and 9: the stand-in prover answers every problem the same way, chosen by the bytes:
+        // it is killed by a signal (before or after its status line), prints noise, or exits early
+        const MISBEHAVIOURS: [&str; 6] = ["KilledBySignal", "TheoremThenKilledBySignal", "NonUtf8", "NoStatusNonZeroExit", "Theorem", "TheoremNonZeroExit"];
+        let misbehaviour = MISBEHAVIOURS[case.bytes.iter().map(|b| *b as usize).sum::<usize>() % MISBEHAVIOURS.len()];
+        let bindir = dir.join("bin");
+        let with_stub: Vec<(&str, String)> = if case.command >= 8 {
+            std::fs::create_dir_all(&bindir).unwrap();
+            std::os::unix::fs::symlink(std::env::current_exe().expect("own path"), bindir.join("vampire")).unwrap();
+            vec![
+                ("PATH", bindir.to_string_lossy().to_string()),
+                ("STUB_DIR", bindir.to_string_lossy().to_string()),
+                ("STUB_DEFAULT_OUTCOME", misbehaviour.to_string()),
+            ]
+        } else {
+            vec![]
+        };
+        let env: &[(&str, String)] = if case.command >= 8 { &with_stub } else if case.command >= 6 { &no_prover } else { &[] };
+        let r = cli::run_env(&bin, &argv, None, env, Duration::from_secs(60));
         let _ = std::fs::remove_dir_all(&dir);
         let shown = String::from_utf8_lossy(&case.bytes).chars().take(300).collect::<String>();
         // deep nesting can arise from byte edits of nested examples only in principle; classify it
